@@ -169,6 +169,9 @@ class ScriptedBackend(TrialBackend):
                                                 training_end_time=None) for t in trial_ids]
 
     def _schedule(self, trial_id: int, config: Dict[str, Any]):
+        # the scripted worker "loads its checkpoint" the moment it is scheduled: what it finds is reported as a Loaded event
+        # right after the Start / Resume event (binds the monitor's checkpoint store; copy must come before scheduling)
+        self._found_ckpt = self.ckpt.get(trial_id) == "present"
         if trial_id in self.workers:
             w = self.workers[trial_id]
             w.state = "busy"
@@ -196,7 +199,8 @@ class ScriptedBackend(TrialBackend):
         self.pause_flag.discard(trial_id)
 
     def copy_checkpoint(self, src_trial_id: int, tgt_trial_id: int):
-        self.ckpt[tgt_trial_id] = "present"
+        if self.ckpt.get(src_trial_id) == "present":
+            self.ckpt[tgt_trial_id] = "present"
 
     def delete_checkpoint(self, trial_id: int):
         self.log.append({"a": "Delete", "t": trial_id})
@@ -236,11 +240,14 @@ class ScriptedBackend(TrialBackend):
         trial = super().start_trial(config=config, checkpoint_trial_id=checkpoint_trial_id)
         self.log.append({"a": "Start", "t": trial.trial_id,
                          "from": -1 if checkpoint_trial_id is None else checkpoint_trial_id})
+        self.log.append({"a": "Loaded", "t": trial.trial_id, "b": bool(self._found_ckpt)})
         return trial
 
     def resume_trial(self, trial_id, new_config=None):
         self.log.append({"a": "Resume", "t": trial_id})
-        return super().resume_trial(trial_id=trial_id, new_config=new_config)
+        r = super().resume_trial(trial_id=trial_id, new_config=new_config)
+        self.log.append({"a": "Loaded", "t": trial_id, "b": bool(self._found_ckpt)})
+        return r
 
     def stop_trial(self, trial_id, result=None):
         if not self._in_stop_all:
@@ -439,7 +446,7 @@ def run_tuner(conf: dict, script: Script, scheduler=None, stop_criterion=None, v
     else:
         log = []
         backend = ScriptedBackend(script, log, values=values, delete_checkpoints=bool(conf.get("del", False)))
-        backend.log_vals = conf.get("ckind") in ("minmetric", "maxmetric", "cost")
+        backend.log_vals = conf.get("ckind") in ("minmetric", "maxmetric", "cost", "minmax")
     sched = scheduler if scheduler is not None else ScriptedScheduler(script, conf.get("kind", "stop"))
     instrument_scheduler(sched, log)
     crit = stop_criterion if stop_criterion is not None else ScriptedCriterion(script)
@@ -503,7 +510,7 @@ def trace_conf(conf: dict) -> dict:
     c = {"nw": conf["nw"], "maxrep": 99, "maxruns": 99, "maxfail": conf.get("maxfail", 1),
          "kind": conf.get("kind", "stop"), "async": bool(conf.get("async", True)),
          "wait": bool(conf.get("wait", False)), "del": bool(conf.get("del", False)), "failb": 99, "extb": 99,
-         "ckind": conf.get("ckind", "script"), "k": conf.get("k", 0), "emptyexit": True, "mayexhaust": True,
+         "ckind": conf.get("ckind", "script"), "k": conf.get("k", 0), "k2": conf.get("k2", 0), "emptyexit": True, "mayexhaust": True,
          "r3": False, "r13": False, "also": bool(conf.get("also", False)), "sim": bool(conf.get("sim", False)), "r8": False, "sjwd": bool(conf.get("sjwd", True)),
          "spec": bool(conf.get("spec", False))}
     return c
